@@ -670,13 +670,22 @@ fn find_modal_class<L: Label>(class_freq: &HashMap<L, f32>) -> L {
     (*val).clone()
 }
 
+/// The class weights in ascending order: floating point sums over them are then independent of
+/// the iteration order of the hash map.
+fn sorted_frequencies<L: Label>(class_freq: &HashMap<L, f32>) -> Vec<f32> {
+    let mut freqs = class_freq.values().copied().collect::<Vec<_>>();
+    freqs.sort_by(|a, b| a.partial_cmp(b).unwrap_or(std::cmp::Ordering::Equal));
+    freqs
+}
+
 /// Given the class frequencies calculates the gini impurity of the subset.
 fn gini_impurity<L: Label>(class_freq: &HashMap<L, f32>) -> f32 {
-    let n_samples = class_freq.values().sum::<f32>();
+    let class_freq = sorted_frequencies(class_freq);
+    let n_samples = class_freq.iter().sum::<f32>();
     assert!(n_samples > 0.0);
 
     let purity = class_freq
-        .values()
+        .iter()
         .map(|x| x / n_samples)
         .map(|x| x * x)
         .sum::<f32>();
@@ -686,11 +695,12 @@ fn gini_impurity<L: Label>(class_freq: &HashMap<L, f32>) -> f32 {
 
 /// Given the class frequencies calculates the entropy of the subset.
 fn entropy<L: Label>(class_freq: &HashMap<L, f32>) -> f32 {
-    let n_samples = class_freq.values().sum::<f32>();
+    let class_freq = sorted_frequencies(class_freq);
+    let n_samples = class_freq.iter().sum::<f32>();
     assert!(n_samples > 0.0);
 
     class_freq
-        .values()
+        .iter()
         .map(|x| x / n_samples)
         .map(|x| if x > 0.0 { -x * x.log2() } else { 0.0 })
         .sum()
